@@ -214,6 +214,10 @@ func (e *Env) RunTrace(caseNo int, op Op, f Fault, ctxTag string, baselinePost s
 	ctx := context.WithValue(context.Background(), ctxKey{}, ctxTag)
 	var cancel context.CancelFunc
 	if f.Mode == "cancel" {
+		// a cold statement cache: under a cancelled context not even a preparation may reach the driver
+		if pdb, ok := e.DB.ConnPool.(*gorm.PreparedStmtDB); ok {
+			pdb.Reset()
+		}
 		ctx, cancel = context.WithCancel(ctx)
 		cancel()
 	}
